@@ -13,7 +13,7 @@ import (
 
 func init() {
 	PropertyText["C19"] = [2]string{
-		"Decides the exhaustiveness and agreement of the structured-document extractors: findURLs has arms for string, array and object, recurses into every element of both containers and tries the embedded-JSON decode for non-URL strings behind a purely syntactic likeness test (R-JSON-KINDS); XML reads every attribute of every start element and every character-data token (R-XML-TOKENS); M3U8 walks all segments, all variants and all alternatives (R-M3U8-KINDS); JSON and XML classify with the same hasFileExtension and put every string in exactly one of assets/outlinks (R-ASSET-OUTLINK-SPLIT); the dispatch switches test the more specific formats first (R-DISPATCH-ORDER); S3 handlers use each content-bearing field of the listing independently of the others, never rewrite the decoded listing, emit object links exactly for Size>0 and the next-page link whenever the page says there is more, changing only the paging parameter (R-S3-FIELDS). JSON embedded in strings is decoded at every depth: the recursion is skipped only for URLs, non-JSON-looking strings and decode errors. The body of every kind of document an extractor is dispatched for passes ProcessBody's keep-test, evaluated on the type the content sniffer assigns to it, read from the linked mimetype module (R-BODY-KEPT). The shared string de-duplicator merges only identical strings (R-DEDUPE-EXACT); predicates consulted before IsHTML look at the document (R-DISPATCH-BEFORE-HTML).",
+		"Decides the exhaustiveness and agreement of the structured-document extractors: findURLs has arms for string, array and object, recurses into every element of both containers and tries the embedded-JSON decode for non-URL strings behind a purely syntactic likeness test (R-JSON-KINDS); XML reads every attribute of every start element and every character-data token (R-XML-TOKENS); M3U8 walks all segments, all variants and all alternatives (R-M3U8-KINDS); JSON and XML classify with the same hasFileExtension and put every string in exactly one of assets/outlinks (R-ASSET-OUTLINK-SPLIT); the dispatch switches test the more specific formats first (R-DISPATCH-ORDER); S3 handlers use each content-bearing field of the listing independently of the others, never rewrite the decoded listing, emit object links exactly for Size>0 and the next-page link whenever the page says there is more, changing only the paging parameter (R-S3-FIELDS). JSON embedded in strings is decoded at every depth: the recursion is skipped only for URLs, non-JSON-looking strings and decode errors. The body of every kind of document an extractor is dispatched for passes ProcessBody's keep-test, evaluated on the type the content sniffer assigns to it, read from the linked mimetype module (R-BODY-KEPT). The shared string de-duplicator merges only identical strings (R-DEDUPE-EXACT); predicates consulted before IsHTML look at the document (R-DISPATCH-BEFORE-HTML). Each S3 listing link is encoded from its own Query() (R-S3-FRESH-QUERY); content types are compared case-insensitively on both sides (R-CONTENT-TYPE-FOLD); the shared body is rewound by every reader (R-BODY-REWIND).",
 		"Not decided: that pagination terminates (depends on the server and on seencheck), the URL-likeness heuristics themselves (isValidURL, LinkRegexStrict), third-party playlist decoding.",
 	}
 	register(&core.Rule{ID: "R-JSON-KINDS", Props: []string{"C19"}, Doc: "findURLs: type switch covers string, []interface{} and map[string]interface{}; both container arms recurse on every element; the string arm appends URLs and otherwise decodes embedded JSON when isLikelyJSON, whose tests only look at length, first/last byte and the presence of a double quote", Run: ruleJSONKinds})
